@@ -136,6 +136,9 @@ func (c *Child) DumpCase(v any) {
 	os.WriteFile(c.base+".case", b, 0o644)
 }
 
+// Flush makes counters and hashes recorded so far survive a crash.
+func (c *Child) Flush() { c.flush() }
+
 func (c *Child) Count(key string, n int64) { c.counters[key] += n }
 
 // Nontrivial registers a non-trivial case by content hash.
